@@ -2,6 +2,8 @@ use crate::prop::Prop;
 pub mod c01;
 pub mod c04;
 pub mod c05;
+pub mod c12;
+pub mod c16;
 pub mod tools;
 
 pub fn lookup(id: &str) -> Option<&'static dyn Prop> {
@@ -9,6 +11,8 @@ pub fn lookup(id: &str) -> Option<&'static dyn Prop> {
         "C01" => &c01::C01,
         "C04" => &c04::C04,
         "C05" => &c05::C05,
+        "C12" => &c12::C12,
+        "C16" => &c16::C16,
         _ => return None,
     })
 }
